@@ -188,6 +188,7 @@ def run(ctx, rep):
                     "session wrote: the property's crash model = in-order prefix of the byte stream)"]
     rep.assumptions += ["the OS keeps an in-order prefix of the bytes written by the dying process (no reordering below the page cache)"]
     ok, out, where = vlib.build_props(ctx, rep, "C03")
+    tstatus, tok, tout, twhere = U.code_tie(ctx, rep)
     work = ctx.sub("ukv")
     path = os.path.join(work, "t.ukv")
     cases, meta, nonappend = [], [], []
@@ -303,6 +304,9 @@ def run(ctx, rep):
                         "but the oracle finds no property violation on them", {"obligation": "corr_c03", "first": list(meta[bad[0]])}, no_input=True)
     if not ok:
         vlib.broken_obligation(rep, "Props/C03.v", f"{where}\n{out[-1500:]}", found)
+    if not tok:
+        vlib.broken_obligation(rep, "Props/C02code.v", "the translation of molli/storage/ukvfile.py no longer refines Model/UKV.v "
+                               f"(map_blocks / put are what C03_crash_reopen is about): {twhere}\n{tout[-1500:]}", bool(rep.violations))
 
 
 def replay(ctx, data):
